@@ -575,11 +575,9 @@ func isInitFn(fn *ssa.Function) bool {
 	return fn.Name() == "init" && fn.Synthetic != "" && fn.Signature.Recv() == nil
 }
 
+// isGhostFn: allocations made by harness/stub/model code are ghost state (not race-checked).
 func (m *Machine) isGhostFn(fn *ssa.Function) bool {
-	if m.ghostDepth > 0 {
-		return true
-	}
-	return false
+	return m.ghostDepth > 0 || m.isHarnessFn(fn)
 }
 
 // ---------------------------------------------------------------------------------------------------------
@@ -767,7 +765,7 @@ func (m *Machine) onMapAccess(mo *MapObj, write bool) {
 }
 
 func (m *Machine) raceFound(c *Cell, a, b *access, write bool) {
-	m.raceFoundMsg(fmt.Sprintf("obj#%d(%s)", c.root.id, c.root.site), a, b)
+	m.raceFoundMsg(fmt.Sprintf("obj#%d(%s %s)", c.root.id, typeStr(c.root.typ), c.root.site), a, b)
 }
 
 func (m *Machine) raceFoundMsg(what string, a, b *access) {
